@@ -50,6 +50,10 @@ func getProfile(name string, seed int64) *Profile {
 		p.Colls = 1
 		p.Name = "algebra"
 		p.Invalid = 0.02
+	case "huge": // C04: operations beyond a store's transaction size limit
+		p.Colls = 1
+		p.Name = "huge"
+		p.Names = []string{"huge"}
 	case "tzwitness": // witness of the known finding on sub-minute zone offsets west of UTC
 		p.Colls = 1
 		p.Name = "tzwitness"
@@ -103,7 +107,7 @@ func getProfile(name string, seed int64) *Profile {
 	return p
 }
 
-var bulkSizes = []int{0, 1, 2, 3, 7, 40, 64, 100, 150, 200, 350, 500}
+var bulkSizes = []int{0, 1, 2, 3, 7, 40, 64, 100, 150, 200, 350, 1100}
 var bulkSizesBig = []int{800, 1000, 1500, 2000, 3000}
 
 func generate(p *Profile, seed int64) ([]E, *Universe) {
@@ -122,6 +126,8 @@ func generate(p *Profile, seed int64) ([]E, *Universe) {
 			{"op": "FindById", "c": c, "id": B(g.ids[0])}}, g.U
 	case p.Name == "algebra":
 		return g.HistoryAlgebra(), g.U
+	case p.Name == "huge":
+		return g.HistoryHuge(), g.U
 	case p.Name == "io":
 		return g.HistoryIO(), g.U
 	case p.CloseOps || p.Name == "richreopen":
